@@ -167,6 +167,7 @@ func (in *Interp) resetPath() {
 	in.unconfirmed = false
 	in.curFn = nil
 	in.initDepth = 0
+	in.allocHook = nil
 	in.sums = nil
 	in.digitCache = map[*Term]StrV{}
 	in.digitList = nil
